@@ -2,6 +2,7 @@
 parse; a LAYOUT rule equivalent to ws behaves identically.  Metamorphic +
 differential oracles."""
 import itertools
+import re
 
 from hypothesis import strategies as st
 
@@ -127,10 +128,17 @@ def run_case(case, ctx):
     cfg = CFG.from_json(case["g"])
     l2 = case["lex"] == "L2"
     layout = case["layout"]
+    # parser options that must not matter for layout: the table kind, and priorities on the layout
+    # terminals (they never compete on the fillers used here, so every one of them must still be tried)
+    kw = {"tables": pgl.TABLES[case.get("table", "LALR")]}
     if layout == "ws":
         text_g = cfg.to_parglare()
     else:
-        text_g = cfg.to_parglare(extra_rules=LAYOUT_RULES.strip(), extra_terminals=LAYOUT_TERMS.strip())
+        lterms = LAYOUT_TERMS.strip()
+        for name, prio in zip(("WS", "LineComment", "NotComment"), case.get("layout_prios", [0, 0, 0])):
+            if prio:
+                lterms = re.sub(r"(?m)^(%s: /.*/);$" % name, lambda m: "%s {%d};" % (m.group(1), prio), lterms)
+        text_g = cfg.to_parglare(extra_rules=LAYOUT_RULES.strip(), extra_terminals=lterms)
     tt = [L2_TEXT.get(n, v) if l2 else v for n, k_, v in cfg.terms]
     words = []
     for n in range(0, case["max_len"] + 1):
@@ -138,11 +146,11 @@ def run_case(case, ctx):
     words += [w[:i] + ["#"] + w[i:] for w in list(words) if len(w) <= 2 for i in range(len(w) + 1)]
     parsers = []
     try:
-        parsers.append(("glr", pgl.GLRParser(pgl.Grammar.from_string(text_g))))
+        parsers.append(("glr", pgl.GLRParser(pgl.Grammar.from_string(text_g), **kw)))
     except Exception as e:
         ctx.fail("glr-construction-raises", grammar=text_g, error=repr(e))
     try:
-        parsers.append(("lr", pgl.Parser(pgl.Grammar.from_string(text_g))))
+        parsers.append(("lr", pgl.Parser(pgl.Grammar.from_string(text_g), **kw)))
     except (SRConflicts, RRConflicts):
         pass
     # equivalent LAYOUT variant (only meaningful for ws layout)
@@ -151,13 +159,13 @@ def run_case(case, ctx):
         rules, terms = EQUIV_LAYOUTS[case["equiv"] % len(EQUIV_LAYOUTS)]
         text_eq = cfg.to_parglare(extra_rules=rules, extra_terminals=terms)
         try:
-            eq.append(("glr", pgl.GLRParser(pgl.Grammar.from_string(text_g), build_tree=True),
-                       pgl.GLRParser(pgl.Grammar.from_string(text_eq), build_tree=True)))
+            eq.append(("glr", pgl.GLRParser(pgl.Grammar.from_string(text_g), build_tree=True, **kw),
+                       pgl.GLRParser(pgl.Grammar.from_string(text_eq), build_tree=True, **kw)))
         except Exception as e:
             ctx.fail("glr-construction-raises", grammar=text_eq, error=repr(e))
         try:
-            eq.append(("lr", pgl.Parser(pgl.Grammar.from_string(text_g), build_tree=True),
-                       pgl.Parser(pgl.Grammar.from_string(text_eq), build_tree=True)))
+            eq.append(("lr", pgl.Parser(pgl.Grammar.from_string(text_g), build_tree=True, **kw),
+                       pgl.Parser(pgl.Grammar.from_string(text_eq), build_tree=True, **kw)))
         except (SRConflicts, RRConflicts):
             pass
     ctx.label("layout:" + layout)
@@ -210,6 +218,8 @@ def _case(gstrat, lex):
         f2 = draw(st.lists(st.sampled_from(pool), min_size=3, max_size=6))
         nterm = len(g["terms"])
         return {"g": g, "lex": lex, "layout": layout, "fill1": f1, "fill2": f2,
+                "table": draw(st.sampled_from(["LALR", "LALR", "SLR"])),
+                "layout_prios": draw(st.lists(st.sampled_from([0, 0, 5, 15]), min_size=3, max_size=3)),
                 "equiv": draw(st.integers(0, 7)), "max_len": 4 if nterm <= 2 else 3}
     return c()
 
